@@ -16,12 +16,12 @@ func vpClaimBacked(e *kvElection, st *vpStore, id string) bool {
 	return st.live() && st.writer == id && vpRecID(st.val) == id && vpRecTok(st.val) == e.Token()
 }
 
-// vpH_C02_T_margin: symbolic heartbeat interval H in [100ms,10s], TTL in [3H, 3H+2s], every store latency
+// vpH_C02_T_margin: symbolic heartbeat interval H in [1ms,10s], TTL in [3H, 3H+2s], every store latency
 // symbolic below H/2: while the instance leads, its record never lapses between two refreshes.
 func vpH_C02_T_margin() {
 	H := time.Duration(vpInt64("H"))
 	ttl := time.Duration(vpInt64("ttl"))
-	vpAssume(vpAnd(H >= 100*time.Millisecond, H <= 10*time.Second))
+	vpAssume(vpAnd(H >= time.Millisecond, H <= 10*time.Second))
 	vpAssume(vpAnd(ttl >= 3*H, ttl <= 3*H+2*time.Second))
 	st := vpNewStore("g", ttl)
 	kv := vpHandle(st, "a")
@@ -99,7 +99,10 @@ func vpC02Churn(envActions int) {
 		}
 	}()
 	_ = e.Start(vpRootCtx())
-	variant := vpChoose("variant", 3)
+	variant := 1 // thorough (two environment actions): StopWithContext{DeleteKey} only, no restart
+	if envActions == 1 {
+		variant = vpChoose("variant", 3)
+	}
 	stopped := false
 	go func() {
 		vpYieldLazy("api.stop", 2*H)
@@ -113,7 +116,7 @@ func vpC02Churn(envActions int) {
 		}
 		stopped = true
 		vpAssert("C02.claim-backed", !e.IsLeader())
-		if vpChoose("restart", 2) == 1 {
+		if envActions == 1 && vpChoose("restart", 2) == 1 {
 			_ = e.Start(vpRootCtx())
 		}
 	}()
